@@ -1,6 +1,7 @@
 import RubyTi.Model.Reader
 import RubyTi.Model.Lexer
 import RubyTi.Model.Token
+import RubyTi.Model.Config
 
 /-! Line-protocol driver over the executable model definitions (core-only, built as `lean_exe`).
 One op per input line, one answer line per op; the answer format is the one
@@ -103,6 +104,31 @@ def opTok (args : String) : String :=
     | some (_, out) => out
   | _ => "BAD-ARGS"
 
+def parseSpec (spec : String) : Config.TypeSpecJ :=
+  if spec == "-" then .absent
+  else if spec.startsWith "s:" then .single (spec.drop 2).toString.toList
+  else if spec == "a:" then .many []
+  else if spec.startsWith "a:" then .many (((spec.drop 2).toString.splitOn ",").map String.toList)
+  else .absent
+
+def opPType (args : String) : String := (Config.parseTypeString args.toList).enc
+
+def opPRet (args : String) : String :=
+  let fl := ((args.splitOn " ").headD "").toList
+  let spec := (args.drop (fl.length + 1)).toString
+  let b (i : Nat) := fl.getD i '0' == '1'
+  (Config.parseReturnType { type := parseSpec spec, isConditional := b 0, isDestructive := b 1, isCaptureOwner := b 2 }).enc
+
+def opPArgs (args : String) : String :=
+  if args.trimAscii.toString == "" then "" else
+  let one (a : String) : Config.MethodArgument :=
+    match a.splitOn "~" with
+    | [spec, key, ast, dflt] => { type := parseSpec spec, key := key.toList, isAsterisk := ast == "1", isDefault := dflt == "1" }
+    | _ => {}
+  " | ".intercalate ((Config.parseArguments ((args.splitOn " ;; ").map one)).map T.enc)
+
+def opBuiltin (args : String) : String := (Config.convertToBuiltinT args.toList).enc
+
 def dispatch (line : String) : String :=
   if line.isEmpty then "" else
   let name := (line.splitOn " ").headD ""
@@ -110,6 +136,10 @@ def dispatch (line : String) : String :=
   if name == "lex" then opLex args
   else if name == "reader" then opReader args
   else if name == "tok" then opTok args
+  else if name == "ptype" then opPType args
+  else if name == "pret" then opPRet args
+  else if name == "pargs" then opPArgs args
+  else if name == "builtin" then opBuiltin args
   else "BAD-OP " ++ name
 
 partial def loop (h : IO.FS.Stream) (out : IO.FS.Stream) : IO Unit := do
